@@ -123,10 +123,11 @@ def moltype_atoms(mt):
     out = []
     first = []
     idx = 1
+    resids = mt.get("resids") or [r + 1 for r in range(len(mt["residues"]))]
     for r, res in enumerate(mt["residues"]):
         first.append(idx)
         for at in res["atoms"]:
-            out.append((idx, r + 1, res["resname"], at))
+            out.append((idx, resids[r], res["resname"], at))
             idx += 1
     return out, first
 
@@ -163,9 +164,11 @@ def expanded_atoms(spec):
     mol_idx = 0
     for name, cnt in spec["molecules"]:
         for _ in range(cnt):
-            atoms, _first = moltype_atoms(by_name[name])
-            for idx, resid, resname, at in atoms:
-                out.append((resid, resname, at["name"], mol_idx, resid - 1))
+            mt = by_name[name]
+            resids = mt.get("resids") or [r + 1 for r in range(len(mt["residues"]))]
+            for r, res in enumerate(mt["residues"]):
+                for at in res["atoms"]:
+                    out.append((resids[r], res["resname"], at["name"], mol_idx, r))
             mol_idx += 1
     return out
 
